@@ -16,3 +16,81 @@ PROPS["C05"] = dict(
     ],
     not_covered=[],
 )
+
+_WS_DECODE_SMALL = [H("c10_decode_contract_n%02d" % n, "complete",
+                      "decoder contract for EVERY input of exactly %d bytes: all 2^16 headers x every remainder; reserved opcode => InvalidOpcode, "
+                      "short input => ReadError, else fields/unmasked payload/exact consumption per RFC 6455 5.2" % n,
+                      bound="input length = %d bytes (complete for that length)" % n, timeout=900) for n in range(2, 9)]
+
+PROPS["C10"] = dict(
+    level="proof",
+    steps=[
+        dict(kind="verus", unit="c10_encode", code_functions=["from", "new", "to_frame"]),
+        dict(kind="kani", crate="humphrey_ws", module="in_ws", tag="dec", jobs=8, harnesses=[
+            H("c10_opcode_try_from_complete", "complete", "Opcode::try_from over all 256 byte values: exactly the six RFC opcodes are accepted and map back to their value"),
+        ] + _WS_DECODE_SMALL + [
+            H("c10_decode_exact_l%02d_m%d" % (l, m), "bounded",
+              "decoder contract, any header bits/key/payload bytes, 7-bit form, payload length %d, mask=%d, 2 trailing bytes left unconsumed" % (l, m),
+              bound="payload length %d" % l, timeout=300) for l in (5, 8, 12) for m in (0, 1)
+        ] + [
+            H("c10_decode_exact_f1_l3_m1", "bounded", "16-bit extended length form parsed (non-canonical short length 3), masked", bound="payload length 3", timeout=300),
+            H("c10_decode_exact_f1_l4_m0", "bounded", "16-bit extended length form parsed (length 4), unmasked", bound="payload length 4", timeout=300),
+            H("c10_decode_exact_f2_l3_m1", "bounded", "64-bit extended length form parsed (length 3), masked", bound="payload length 3", timeout=300),
+            H("c10_roundtrip_l0_m0", "bounded", "decode(encode(f)) == f, real encoder and real decoder, empty payload, unmasked", bound="payload length 0", timeout=600),
+            H("c10_roundtrip_l0_m1", "bounded", "decode(encode(f)) == f, empty payload, masked with any key", bound="payload length 0", timeout=600),
+            H("c10_roundtrip_l5_m0", "bounded", "decode(encode(f)) == f, payload 5 bytes, unmasked", bound="payload length 5", timeout=600),
+            H("c10_roundtrip_l5_m1", "bounded", "decode(encode(f)) == f with the payload unmasked on receipt, payload 5 bytes, any key", bound="payload length 5", timeout=600),
+        ]),
+    ],
+    kani_functions=[dict(file="humphrey-ws/src/frame.rs", item="Frame::from_stream / from_stream_inner / Opcode::try_from", engine="kani")],
+    assumptions=[
+        "vf_to_be_bytes shim: (x as u16/u64).to_be_bytes() is the big-endian byte sequence (external_body in contracts/c10_encode.vrs)",
+        "Read::read_exact contract (fills the buffer whatever the segmentation, or fails): the decoder harnesses use a reader that implements exactly this contract and treat a direct read() as an obligation failure; std's retry loop itself is not executed",
+    ],
+    not_covered=[
+        "decoding of payloads longer than 12 bytes, in particular canonical 16-bit-form (>=126) and 64-bit-form (>=65536) payloads: CBMC exhausts 14 GB on a 126-byte symbolic payload (measured); those forms are decoded only with short non-canonical lengths",
+        "the encoder side is unbounded (Verus), so round trip beyond 5-byte payloads follows only from encoder==layout (proved) plus decoder contract (bounded)",
+    ],
+)
+
+PROPS["C03"] = dict(
+    level="model_checking",
+    steps=[
+        dict(kind="kani", crate="humphrey_ws", module="in_ws", tag="c03", jobs=8, harnesses=[
+            H("c03_ws_claimed_len_n10", "complete", "64-bit length form with ANY claimed length and nothing after the header: returns ReadError, no panic, no allocation proportional to the claim", bound="10-byte input (complete for that shape)", timeout=600),
+            H("c03_ws_claimed_len_n14", "complete", "same with 4 more bytes supplied (key / partial payload)", bound="14-byte input", timeout=600),
+        ] + [H(h.name, "complete", "no panic / returns for every input of that length (same harness as C10)", bound=h.bound, timeout=900) for h in _WS_DECODE_SMALL]),
+    ],
+    kani_functions=[dict(file="humphrey-ws/src/frame.rs", item="Frame::from_stream / from_stream_inner", engine="kani")],
+    assumptions=["Vec growth through extend_from_slice is std's amortised doubling (allocation <= 2x bytes received + constant)"],
+    not_covered=["HTTP request parser", "HTTP response parser", "JSON parser", "configuration parser (parse_conf)", "WebSocket inputs longer than 14 bytes"],
+)
+
+PROPS["C18"] = dict(
+    level="proof",
+    steps=[
+        dict(kind="verus", unit="c18_date", code_functions=["from"]),
+        dict(kind="verus", unit="c18_b64enc", code_functions=["encode"]),
+    ],
+    assumptions=[
+        "ALPHABET[i] == RFC 4648 table-1 character i (external_body lemma alphabet_is_rfc; discharged on the real constant by Kani harness c18_b64_alphabet)",
+        "AsRef<[u8]>::as_ref is a pure function of its argument (uninterpreted asref_spec)",
+        "String::with_capacity returns the empty string",
+    ],
+    not_covered=[
+        "IMF-fixdate text layout produced by format! in DateTime::to_string (neither verifier executes format!)",
+        "percent-encode (format!-based)",
+    ],
+)
+
+PROPS["C09"] = dict(
+    level="proof",
+    steps=[
+        dict(kind="verus", unit="c09_lb", code_functions=["select_target", "next", "choose"]),
+    ],
+    assumptions=[
+        "lb_wf: 0 < targets.len() < 2^32, index < len, and the LCG parameters do not overflow usize (true for Lcg::new() until seed > ~1.6e10, i.e. the system clock before year 2499)",
+        "exclusive access to the LoadBalancer during select_target (&mut self under Mutex::lock): Rust's aliasing guarantee, not explored",
+    ],
+    not_covered=["wall-clock timeout behaviour", "Response::from_stream (HTTP response parser) returning rather than panicking"],
+)
